@@ -118,6 +118,13 @@ def scope_family() -> list[tuple[str, str, list]]:
     for bn, body in bodies.items():
         for on, args in orders.items():
             add(f"variant-{bn}-{on}", f"def hv(x):\n{body}" + "".join(f"mon.write(hv({a}))\n" for a in args))
+    # subscripts of list-valued expressions that are not plain names (C++ rvalues)
+    add("index-list-literal", "step = 4\nmon.write([100, 250, 500][step % 3])\n")
+    add("index-function-result", "def delays():\n    return [100, 250, 500]\nstep = 4\nmon.write(delays()[step % 3])\nmon.write(len(delays()))\n")
+    add("index-comprehension", "k = 2\nmon.write([i * i for i in range(4)][k])\n")
+    add("index-nested-and-negative", "grid = [[1, 2], [3, 4]]\nvals = [5, 6, 7]\nmon.write(grid[1][0])\nmon.write(vals[-1])\nmon.write(grid[-1][-1])\n")
+    add("index-in-condition-and-arith", "vals = [5, 6, 7]\nk = 1\nif [1, 2, 3][k] > 1:\n    mon.write(vals[k] + [10, 20][0])\n")
+    add("list-of-strings-and-floats", 'names = ["a", "bc"]\nfs = [0.5, 1.5]\nmon.write(names[1])\nmon.write(fs[0] + fs[1])\nmon.write(["x", "y"][1])\n')
     add("helper-returns-list", "def mk():\n    return [1, 2, 3]\nv = mk()\nmon.write(v[1])\n")
     add("helper-returns-string", 'def tag(n):\n    return f"id:{n}"\nmon.write(tag(3))\n')
     add("button-handler", 'def hit():\n    mon.write("hit")\nbtn = Button(7, on_click=hit)\nwhile True:\n    mon.write(btn.is_pressed())\n')
